@@ -61,16 +61,6 @@ Definition comment_to_string (g : list comment) : rstr :=
                 end in
   join_nl lines'.
 
-(* bufio.ScanLines without the buffer limit: split on \n, drop one trailing \r, no final empty token *)
-Definition drop_cr (l : rstr) : rstr :=
-  match rev l with c :: r => if c =? CR then rev r else l | [] => l end.
-Definition scan_lines (s : rstr) : list rstr :=
-  match s with
-  | [] => []
-  | _ => let ls := split_nl s in
-         map drop_cr (match rev ls with [] :: r => rev r | _ => ls end)
-  end.
-
 Fixpoint strip_prefix (p l : rstr) : option rstr :=
   match p, l with
   | [], _ => Some l
@@ -84,8 +74,9 @@ Definition prefix : rstr := x_prefix ++ x_delimiter.
 Fixpoint filter_map {A B} (f : A -> option B) (l : list A) : list B :=
   match l with [] => [] | a :: r => match f a with Some b => b :: filter_map f r | None => filter_map f r end end.
 
+(* SettingLines: strings.Split(comment, "\n"), TrimSpace, HasPrefix/TrimPrefix *)
 Definition setting_lines (s : rstr) : list rstr :=
-  filter_map (fun l => strip_prefix prefix (trim_space l)) (scan_lines s).
+  filter_map (fun l => strip_prefix prefix (trim_space l)) (split_nl s).
 
 (* specification side *)
 Definition logical_lines (g : list comment) : list rstr :=
